@@ -191,6 +191,60 @@ func init() {
 				out.Violate("C12|byname:"+l.Name, "ByName does not return the registered OCSP lint", l.Name, nil, nil)
 			}
 		}
+		// the registry-level (deprecated, still public) lookups agree with the per-kind ones, for the global registry and
+		// for a filtered one: one entry per certificate lint of the source, each non-nil, named as the lint and of that source
+		regsToProbe := map[string]lint.Registry{"global registry": g}
+		if fr, e := g.Filter(lint.FilterOptions{ExcludeNames: []string{g.Names()[0]}}); e == nil {
+			regsToProbe["registry filtered with ExcludeNames"] = fr
+		}
+		for what, r := range regsToProbe {
+			allSrc := append(lint.SourceList{}, r.Sources()...)
+			allSrc = append(allSrc, lint.LintSource("NoSuchSource"))
+			for _, s := range allSrc {
+				per := r.CertificateLints().BySource(s)
+				top := r.BySource(s)
+				if len(per) != len(top) {
+					out.Violate("C12|registry-bysource-count:"+string(s), fmt.Sprintf("%s: Registry.BySource(%s) returns %d entries, CertificateLints().BySource %d", what, s, len(top), len(per)), string(s), len(per), len(top))
+				}
+				seenTop := map[string]bool{}
+				for i, l := range top {
+					if l == nil {
+						out.Violate("C12|registry-bysource-nil:"+string(s), fmt.Sprintf("%s: Registry.BySource(%s)[%d] is nil", what, s, i), string(s), nil, nil)
+						continue
+					}
+					if l.Source != s {
+						out.Violate("C12|registry-bysource-src:"+l.Name, fmt.Sprintf("%s: Registry.BySource(%s) lists %s of source %s", what, s, l.Name, l.Source), string(s), nil, nil)
+					}
+					if seenTop[l.Name] {
+						out.Violate("C12|registry-bysource-dup:"+l.Name, fmt.Sprintf("%s: Registry.BySource(%s) lists %s twice", what, s, l.Name), string(s), nil, nil)
+					}
+					seenTop[l.Name] = true
+				}
+				for _, l := range per {
+					if l != nil && !seenTop[l.Name] {
+						out.Violate("C12|registry-bysource-missing:"+l.Name, fmt.Sprintf("%s: Registry.BySource(%s) does not list %s", what, s, l.Name), string(s), nil, nil)
+					}
+				}
+				for i, l := range r.RevocationListLints().BySource(s) {
+					if l == nil || l.Source != s {
+						out.Violate("C12|crl-bysource:"+string(s), fmt.Sprintf("%s: RevocationListLints().BySource(%s)[%d] is nil or of another source", what, s, i), string(s), nil, nil)
+					}
+				}
+				for i, l := range r.OcspResponseLints().BySource(s) {
+					if l == nil || l.Source != s {
+						out.Violate("C12|ocsp-bysource:"+string(s), fmt.Sprintf("%s: OcspResponseLints().BySource(%s)[%d] is nil or of another source", what, s, i), string(s), nil, nil)
+					}
+				}
+			}
+			for _, l := range r.CertificateLints().Lints() {
+				if t := r.ByName(l.Name); t == nil || t.Name != l.Name || t.Source != l.Source {
+					out.Violate("C12|registry-byname:"+l.Name, what+": Registry.ByName does not return the certificate lint of that name", l.Name, nil, nil)
+				}
+			}
+			if r.ByName("e_no_such_lint") != nil || r.CertificateLints().ByName("e_no_such_lint") != nil {
+				out.Violate("C12|registry-byname-unknown", what+": a lookup of an unregistered name returns a lint", nil, nil, nil)
+			}
+		}
 		for _, s := range g.Sources() {
 			nBy := len(g.CertificateLints().BySource(s)) + len(g.RevocationListLints().BySource(s)) + len(g.OcspResponseLints().BySource(s))
 			nMeta := 0
